@@ -37,6 +37,56 @@ func init() {
 	})
 }
 
+// c20Secret realises a model secret.  Names starting with "K" are keys of particular LENGTHS that share a prefix:
+// K64a and K64b are 64 bytes long and differ only in their second half, K32 is their common first half, K33 one byte
+// more - different secrets all the same.  Every other name is used as it is.
+func c20Secret(name string) []byte {
+	a := strings.Repeat("A", 32)
+	switch name {
+	case "K64a":
+		return []byte(a + strings.Repeat("a", 32))
+	case "K64b":
+		return []byte(a + strings.Repeat("b", 32))
+	case "K32":
+		return []byte(a)
+	case "K33":
+		return []byte(a + "a")
+	case "K16":
+		return []byte(a[:16])
+	}
+	return []byte(name)
+}
+
+// c20ThirdParty appends a third-party caveat to the token (no key needed) and, if discharged, returns the binary
+// SLICE form: the token followed by a discharge macaroon minted by the holder and bound to the token.
+func c20ThirdParty(bin []byte, discharged bool) []byte {
+	var m macaroon.Macaroon
+	if err := m.UnmarshalBinary(bin); err != nil {
+		return bin
+	}
+	rootKey := []byte("holder-chosen third-party key 01")
+	if err := m.AddThirdPartyCaveat(rootKey, []byte("third-party-caveat"), "elsewhere.example.org"); err != nil {
+		panic(err)
+	}
+	if !discharged {
+		b, err := m.MarshalBinary()
+		if err != nil {
+			panic(err)
+		}
+		return b
+	}
+	d, err := macaroon.New(rootKey, []byte("third-party-caveat"), "elsewhere.example.org", macaroon.V2)
+	if err != nil {
+		panic(err)
+	}
+	d.Bind(m.Signature())
+	b, err := macaroon.Slice{&m, d}.MarshalBinary()
+	if err != nil {
+		panic(err)
+	}
+	return b
+}
+
 func c20Mint(key []byte, id string, cavs []string) []byte {
 	m, err := macaroon.New(key, []byte(id), "example.org", macaroon.V2)
 	if err != nil {
@@ -83,7 +133,7 @@ func c20Replay(i int, raw json.RawMessage) Result {
 	if delta > 0 {
 		realDelta = delta + 2 // keep clear of the real clock ticking between minting and validating
 	}
-	key := []byte(r.Secret)
+	key := c20Secret(r.Secret)
 	sgn := "expired"
 	if delta > 0 {
 		sgn = "live"
@@ -174,6 +224,10 @@ func c20Replay(i int, raw json.RawMessage) Result {
 				bin = c20Add(bin, tokens.UserPrefix+other)
 			case "add_user_same":
 				bin = c20Add(bin, tokens.UserPrefix+r.User)
+			case "add_third_party":
+				bin = c20ThirdParty(bin, false)
+			case "add_third_party_discharged":
+				bin = c20ThirdParty(bin, true)
 			case "mint_no_time":
 				bin = c20Mint(key, r.User, std[:2])
 			case "mint_no_gen":
@@ -222,7 +276,7 @@ func c20Replay(i int, raw json.RawMessage) Result {
 
 	switch r.Call {
 	case "validate":
-		err := tokens.ValidateToken(tokens.TokenOptions{ServerPrivateKey: []byte(r.VSecret), ServerName: "example.org", UserID: r.VUser}, token)
+		err := tokens.ValidateToken(tokens.TokenOptions{ServerPrivateKey: c20Secret(r.VSecret), ServerName: "example.org", UserID: r.VUser}, token)
 		got := err == nil
 		if got != r.OK {
 			return Result{OK: false, NT: nt, Key: keyOf("validate"), Want: r.OK, Got: got,
